@@ -37,6 +37,14 @@ class Module:
             self.tree = ast.parse(src, filename=path)
         except SyntaxError as e:
             raise AnalysisError(f'{path} does not parse: {e}')
+        # calls of private helpers that did not exist on the pinned tree
+        # are replaced by the helper's body (sa/inline.py)
+        self.inline_notes = []
+        if not name.startswith(('bin/', 'tests')) and not os.environ.get(
+                'VERIF_NO_INLINE'):
+            from .inline import inline_new_helpers
+            self.tree, self.inline_notes = inline_new_helpers(self.tree,
+                                                              name)
         # parent links
         for parent in ast.walk(self.tree):
             for child in ast.iter_child_nodes(parent):
